@@ -269,3 +269,155 @@ def k_direction(eng):
 
     r = run_kernel(eng, "16.d/B/direction", "16.d", "all 60 year pillars x both genders x every term position of the birth instant", build, None, replay)
     return _finish(r, holder["ctx"]) if "ctx" in holder else r
+
+
+def k_fortune(eng, which):
+    """decade and yearly fortunes (16.e).  which: decade-pillar | decade-start-age | decade-end-age | decade-year | year-age | year-pillar | year-year"""
+    from .objmodel import Obj
+    holder = {}
+    owner, method = {"decade-pillar": ("DecadeFortune", "get_sixty_cycle"), "decade-start-age": ("DecadeFortune", "get_start_age"), "decade-end-age": ("DecadeFortune", "get_end_age"),
+                     "decade-year": ("DecadeFortune", "get_start_sixty_cycle_year"), "year-age": ("Fortune", "get_age"), "year-pillar": ("Fortune", "get_sixty_cycle"),
+                     "year-year": ("Fortune", "get_sixty_cycle_year"), "decade-next": ("DecadeFortune", "next"), "year-next": ("Fortune", "next"),
+                     "decade-start-fortune": ("DecadeFortune", "get_start_fortune")}[which]
+    ctors = {"decade-next": "DecadeFortune", "year-next": "Fortune", "decade-start-fortune": "Fortune"}
+
+    class YearObj:
+        def __init__(self, t):
+            self.t = t
+
+    def build(eng):
+        fields = struct_fields(os.path.join(REPO, "src/tyme/eightchar/mod.rs"), owner)
+        fn = M.find_fn(eng.fns, method, "&" + owner, 2 if method == "next" else None)
+        inl = {}
+        if which in ctors:
+            inl = {owner + "::get_index": ("get_index", "&" + owner, None), ctors[which] + "::from_child_limit": ("from_child_limit", "ChildLimit", ctors[which])}
+        elif owner == "DecadeFortune":
+            inl = {"DecadeFortune::get_start_age": ("get_start_age", "&DecadeFortune", None), "DecadeFortune::get_start_sixty_cycle_year": ("get_start_sixty_cycle_year", "&DecadeFortune", None)}
+        else:
+            inl = {"Fortune::get_age": ("get_age", "&Fortune", None)}
+        ctx = _ctx(eng, inl)
+        rec = Rec(ctx, "self", owner)
+        index = rec.field(fields.index("index"), "isize")
+        EY = ctx.fresh_value("year_the_limit_ends", "isize")
+        SY = ctx.fresh_value("birth_year", "isize")
+        mp = ctx.fresh_value("month_pillar", "usize")
+        hp = ctx.fresh_value("hour_pillar", "usize")
+        fwd = ctx.fresh_value("forward", "bool")
+        holder.update(ctx=ctx)
+        model = ctx.model
+        base = model.call
+
+        def call(c, fr, callee, args, path):
+            a = [model.deref(c, x) for x in args]
+            if callee == "ChildLimit::get_end_sixty_cycle_year":
+                return True, YearObj(EY)
+            if callee == "ChildLimit::get_start_sixty_cycle_year":
+                return True, YearObj(SY)
+            if a and isinstance(a[0], YearObj):
+                if callee == "SixtyCycleYear::get_year":
+                    return True, a[0].t
+                if callee == "<SixtyCycleYear as Tyme>::next" and isinstance(a[1], T):
+                    return True, YearObj(T("(+ %s %s)" % (a[0].t.s, a[1].s), "Int"))
+            if callee == "ChildLimit::get_eight_char":
+                return True, Rec(c, "eight_char")
+            if callee == "EightChar::get_month":
+                return True, Obj("SixtyCycle", mp)
+            if callee == "EightChar::get_hour":
+                return True, Obj("SixtyCycle", hp)
+            if callee == "ChildLimit::is_forward":
+                return True, fwd
+            return base(c, fr, callee, args, path)
+        model.call = call
+        limit = rec.field(fields.index("child_limit"), "ChildLimit")
+        n = ctx.fresh_value("n", "isize")
+        paths = ctx.run(fn, [("refrec", rec)] + ([n] if method == "next" else []))
+        pre = ["(<= (- 1000) %s 1000)" % n.s, "(<= 1 %s 9990)" % SY.s, "(<= 0 (- %s %s) 11)" % (EY.s, SY.s), "(<= (- 1) %s 200)" % index.s, "(<= 0 %s 59)" % mp.s, "(<= 0 %s 59)" % hp.s]
+        virt = "(+ (- %s %s) 1)" % (EY.s, SY.s)       # virtual age (虚岁) in the year the limit ends
+
+        def built(p):
+            cl = [c for c in p.calls if c[0] == ctors[which] + "::new"]
+            return cl[-1] if cl and p.ret is cl[-1][2] else None
+
+        def shape(p):
+            r = p.ret
+            if which in ctors:
+                c = built(p)
+                if c is None:
+                    return "result is not built by %s::new" % ctors[which]
+                src = model.deref(holder["ctx"], c[1][0])
+                ok = src is limit or any(cc[2] is src and model.deref(holder["ctx"], cc[1][0]) in (limit, rec) for cc in p.calls if cc[0] in ("<ChildLimit as Clone>::clone", owner + "::get_child_limit"))
+                return None if ok and isinstance(c[1][1], T) else "the child limit handed on is not this fortune's"
+            if which.endswith("pillar"):
+                return None if (isinstance(r, Obj) and r.kind == "SixtyCycle") else "result is not a modelled pillar"
+            if which.endswith("year"):
+                return None if isinstance(r, YearObj) else "result is not a modelled sexagenary year"
+            return None if isinstance(r, T) else "result is not a number"
+
+        def posts(p):
+            r = p.ret
+            sign = lambda x: "(ite %s %s (- %s))" % (fwd.s, x, x)
+            if which in ctors:
+                i2 = built(p)[1][1]
+                want = "(* 10 %s)" % index.s if which == "decade-start-fortune" else "(+ %s %s)" % (index.s, n.s)
+                return [("index", "(= %s %s)" % (i2.s, want))]
+            if which == "decade-pillar":
+                return [("steps-one-per-decade", "(= %s (mod (+ %s %s) 60))" % (r.idx.s, mp.s, sign("(+ %s 1)" % index.s)))]
+            if which == "decade-start-age":
+                return [("ten-apart-from-the-end-age", "(= %s (+ %s (* 10 %s)))" % (r.s, virt, index.s))]
+            if which == "decade-end-age":
+                return [("nine-later", "(= %s (+ %s (* 10 %s) 9))" % (r.s, virt, index.s))]
+            if which == "decade-year":
+                return [("year", "(= %s (+ %s (* 10 %s)))" % (r.t.s, EY.s, index.s))]
+            if which == "year-age":
+                return [("age", "(= %s (+ %s %s))" % (r.s, virt, index.s))]
+            if which == "year-pillar":
+                return [("steps-one-per-year", "(= %s (mod (+ %s %s) 60))" % (r.idx.s, hp.s, sign("(+ %s %s)" % (virt, index.s))))]
+            return [("year", "(= %s (+ %s %s))" % (r.t.s, EY.s, index.s))]
+        return ctx, paths, pre, posts, shape
+
+    def replay(eng, model):
+        nat = eng.native("fortune_scan")
+        if nat in ("NONE", "PANIC", "UNKNOWN", ""):
+            return nat == "PANIC", "native scan: " + (nat or "no output")
+        return True, "fortune rule violated: " + nat
+
+    r = run_kernel(eng, "16.e/B/%s" % which, "16.e", "birth year any, limit ending 0..11 years later, index -1..200, all pillars, both directions", build, None, replay)
+    return _finish(r, holder["ctx"]) if "ctx" in holder else r
+
+
+def k_limit_fortunes(eng, which):
+    """ChildLimit::get_start_decade_fortune (index 0), get_decade_fortune (-1: the decade the child limit itself belongs to), get_start_fortune (0)"""
+    method, ctor, want = {"start-decade": ("get_start_decade_fortune", "DecadeFortune", 0), "own-decade": ("get_decade_fortune", "DecadeFortune", -1),
+                          "start-year": ("get_start_fortune", "Fortune", 0)}[which]
+    holder = {}
+
+    def build(eng):
+        fn = M.find_fn(eng.fns, method, "&ChildLimit")
+        ctx = _ctx(eng, {ctor + "::from_child_limit": ("from_child_limit", "ChildLimit", ctor)})
+        rec = Rec(ctx, "self", "ChildLimit")
+        holder.update(ctx=ctx)
+        paths = ctx.run(fn, [("refrec", rec)])
+
+        def built(p):
+            cl = [c for c in p.calls if c[0] == ctor + "::new"]
+            return cl[-1] if cl and p.ret is cl[-1][2] else None
+
+        def shape(p):
+            c = built(p)
+            if c is None:
+                return "result is not built by %s::new" % ctor
+            src = ctx.model.deref(ctx, c[1][0])
+            ok = src is rec or any(cc[2] is src and ctx.model.deref(ctx, cc[1][0]) is rec for cc in p.calls if cc[0] == "<ChildLimit as Clone>::clone")
+            return None if ok and isinstance(c[1][1], T) else "the child limit handed on is not this one"
+
+        def posts(p):
+            return [("index", "(= %s %d)" % (built(p)[1][1].s, want))]
+        return ctx, paths, [], posts, shape
+
+    def replay(eng, model):
+        nat = eng.native("fortune_scan")
+        if nat in ("NONE", "PANIC", "UNKNOWN", ""):
+            return nat == "PANIC", "native scan: " + (nat or "no output")
+        return True, "fortune rule violated: " + nat
+    r = run_kernel(eng, "16.e/B/limit-%s" % which, "16.e", "every child limit", build, None, replay)
+    return _finish(r, holder["ctx"]) if "ctx" in holder else r
